@@ -697,3 +697,74 @@ class Freshness:
                     continue
             return False
         return True
+
+
+def caller_array_writes(ctx: Context, fi: FuncInfo, params: Optional[List[str]] = None):
+    """In-place writes in `fi` whose target may be (an alias / view of) an array owned by the caller:
+    [(statement node, target name, abstract value)].  Writes: augmented assignment to a name, item / slice store,
+    `out=<name>`, in-place array methods (sort, fill, put, resize, partition, itemset, setfield, byteswap(True)).
+    The ownership lattice decides aliasing: np.asarray / ravel / reshape / basic slicing keep the owner, np.array /
+    arithmetic / copy() give a fresh array."""
+    F = Freshness(ctx)
+    flow = flow_of(fi.node)
+    out = []
+    inplace_methods = {"sort", "fill", "put", "resize", "partition", "itemset", "setfield", "setflags"}
+
+    def owned_by_caller(name_node: ast.Name, at) -> Optional[AV]:
+        v = F.eval(fi, name_node, at)
+        bad = v.bad_nodes(("param",))
+        if params is not None and bad:
+            # only the listed parameters count
+            ds = flow.reaching(at, name_node.id)
+        return bad[0] if bad else None
+
+    for nd in flow.cfg.stmt_nodes():
+        if nd.kind != "stmt" or nd.ast is None:
+            continue
+        st = nd.stmt
+        cands: List[ast.Name] = []
+        if isinstance(st, ast.AugAssign):
+            b = st.target
+            while isinstance(b, ast.Subscript):
+                b = b.value
+            if isinstance(b, ast.Name):
+                cands.append(b)
+        elif isinstance(st, ast.Assign):
+            for t in st.targets:
+                for tt in (t.elts if isinstance(t, (ast.Tuple, ast.List)) else [t]):
+                    if isinstance(tt, ast.Subscript):
+                        b = tt
+                        while isinstance(b, ast.Subscript):
+                            b = b.value
+                        if isinstance(b, ast.Name):
+                            cands.append(b)
+        for c in ast.walk(st) if not isinstance(st, (ast.FunctionDef, ast.ClassDef)) else []:
+            if isinstance(c, ast.Call):
+                for k in c.keywords:
+                    if k.arg == "out" and isinstance(k.value, ast.Name):
+                        cands.append(k.value)
+                if isinstance(c.func, ast.Attribute) and isinstance(c.func.value, ast.Name) and c.func.attr in inplace_methods:
+                    cands.append(c.func.value)
+        for nm in cands:
+            load = ast.Name(id=nm.id, ctx=ast.Load())
+            ast.copy_location(load, nm)
+            # the value the name has *before* this statement (an augmented assignment re-binds it afterwards)
+            v = F.eval(fi, load, nd)
+            bad = v.bad_nodes(("param",))
+            if bad:
+                out.append((nd, nm.id, v))
+    return out
+
+
+def inputs_untouched_rule(ctx: Context, R, rule: str, funcs, what: str, allowed=None, min_funcs: int = 1):
+    """`rule`: none of `funcs` writes in place into an array that belongs to its caller (see caller_array_writes).
+    `allowed`: {(function short name, variable): reason} -- writes confirmed by reading and frozen."""
+    allowed = allowed or {}
+    n = 0
+    for fi in funcs:
+        n += 1
+        hits = [(nd, name, v) for (nd, name, v) in caller_array_writes(ctx, fi) if (fi.short, name) not in allowed]
+        R.check(rule, f"{fi.short} does not write into its caller's arrays", not hits, fi, hits[0][0].stmt if hits else fi.node,
+                msg=(f"{fi.short}: `{ast.unparse(hits[0][0].stmt)[:60]}` writes in place into `{hits[0][1]}`, which is (a view / alias of) an array the caller passed in: "
+                     f"{what}") if hits else "", key=f"caller-array-write:{fi.short}")
+    R.floor(rule, "functions checked for writes into caller-owned arrays", n, min_funcs)
